@@ -139,7 +139,7 @@ def _arr_eq(eng, st, args, dty, callee, m):
     return e if callee.endswith("eq") else simp(z3.Not(e))
 
 
-@summary(r"^<\[u8; \d+\] as (Ord|PartialOrd)>::(cmp|partial_cmp)$|^core::array::<impl (Ord|PartialOrd) for \[u8; \d+\]>::(cmp|partial_cmp)$", "byte-array ordering (lexicographic = big-endian unsigned)")
+@summary(r"^<\[u8; \d+\] as (std::cmp::)?(Ord|PartialOrd)>::(cmp|partial_cmp)$|^<\[u8; \d+\] as (Ord|PartialOrd)>::(cmp|partial_cmp)$|^core::array::<impl (Ord|PartialOrd) for \[u8; \d+\]>::(cmp|partial_cmp)$", "byte-array ordering (lexicographic = big-endian unsigned)")
 def _arr_cmp(eng, st, args, dty, callee, m):
     a = deref(eng, st, args[0])
     b = deref(eng, st, args[1])
